@@ -616,7 +616,10 @@ fn pathvm_stage(report: &mut Report, exe: &std::path::Path, threads: usize) {
 /// and 64-bit extremes, floats with very long texts, NaN, bytes holding invalid UTF-8, safe and
 /// normal strings — in autoescaped and plain templates, at top level, in captures and in loops;
 /// and a loop variable / key RE-BOUND by `{% set %}` inside its own loop body followed by dotted
-/// paths on it in `if` / filter / `for` / operator positions (the fused `LoadPath`).  Every case is
+/// paths on it in `if` / filter / `for` / operator positions (the fused `LoadPath`); and variables
+/// that exist only in the instance's global context (`tera.global_context()`, nested maps) used
+/// through loaded dotted paths, written directly, in loops, captures and an include, also
+/// shadowed by the render context.  Every case is
 /// compared between the two engines through `render` (a `String`), `render_to` (raw bytes, hex) and
 /// `render_to` into a writer that takes one byte per call.
 fn directed_stage(report: &mut Report) {
@@ -670,18 +673,46 @@ fn directed_stage(report: &mut Report) {
         ("rb_cond", "{% for x in xs %}{% if loop.first %}{% set x = {\"f\": \"one\"} %}{% endif %}{{ x.f | default(value=\"d\") | upper }}{% if x.f %}t{% endif %};{% endfor %}"),
         ("rb_compr", "{% for x in xs %}{% set x = {\"f\": [1, 2]} %}{{ [t * 2 for t in x.f] }}{{ x.f | length }};{% endfor %}"),
     ];
+    // variables that exist ONLY in the instance's global context (`tera.global_context()`), used
+    // through LOADED dotted paths (if / filter / set / for / operators / literals), written directly,
+    // inside loops, captures and an include; also shadowed by the render context
+    let global_bodies: [(&str, &str); 10] = [
+        ("gl_if", "{% if site.lang == \"en\" %}E{% else %}O{% endif %}{% if site.nav.home.url %}u{% endif %}{% if not site.missing %}m{% endif %}"),
+        ("gl_filter", "{{ site.title | upper }}{{ site.nav.home.url | length }}{{ site.nav.items | first }}"),
+        ("gl_set", "{% set t = site.title %}{{ t }}{% set u = site.nav.home %}{{ u.url }}{% set_global z = site.n %}{{ z }}"),
+        ("gl_for", "{% for i in site.nav.items %}{{ i }}{% endfor %}{% for k, v in site.nav.home %}{{ k }}={{ v }}{% endfor %}"),
+        ("gl_ops", "{{ site.n + 1 }}{{ site.title ~ \"!\" }}{{ site.n in site.nav.items }}{{ [site.n, site.lang] }}{{ site.n if site.lang else 0 }}{{ site.n < gm.f.g }}"),
+        ("gl_written", "{{ site.title }}|{{ gonly }}|{{ gm.f.g }}|{{ site.nav.home }}"),
+        ("gl_loop", "{% for x in [1, 2] %}{% if site.lang == \"en\" %}{{ x }}{% endif %}{{ site.title | lower }}{{ gonly | upper }};{% endfor %}"),
+        ("gl_capture", "{% set w %}{{ site.title | upper }}{% if gm.f.g %}{{ gm.f.g + 1 }}{% endif %}{% endset %}<{{ w }}>{% filter lower %}{{ site.lang | upper }}{% endfilter %}"),
+        ("gl_inc_inner", "i{{ site.title | upper }}{% if site.lang == \"en\" %}E{% endif %}"),
+        ("gl_include", "{% include \"gl_inc_inner\" %}|{{ site.lang | upper }}"),
+    ];
+    let globals: Vec<(String, String)> = vec![
+        ("site".to_string(), "M4 s:6c616e67 s:656e s:6e i64:3 s:6e6176 M2 s:686f6d65 M1 s:75726c s:2f3c s:6974656d73 A2 i64:1 i64:3 s:7469746c65 s:543c693e".to_string()),
+        ("gonly".to_string(), "s:4726".to_string()),
+        ("gm".to_string(), "M1 s:66 M1 s:67 i64:7".to_string()),
+    ];
     let rebind_ctx = vec![
         ("xs".to_string(), "A3 M2 s:66 s:6f s:7473 A1 i64:9 i64:3 M1 s:66 s:".to_string()),
         ("mm".to_string(), "M2 s:61 M1 s:66 s:6f s:62 i64:2".to_string()),
     ];
     let mut templates: Vec<(String, String)> = Vec::new();
-    for (n, b) in print_bodies.iter().chain(rebind_bodies.iter()) {
+    for (n, b) in print_bodies.iter().chain(rebind_bodies.iter()).chain(global_bodies.iter()) {
         // (component names are instance-wide: one per template)
         templates.push((format!("{n}.html"), b.replace("cc", "ch")));
         templates.push((n.to_string(), b.to_string()));
     }
     let (on, off) = match (build(&templates, false), build(&templates, true)) {
-        (Ok(a), Ok(b)) => (a, b),
+        (Ok(mut a), Ok(mut b)) => {
+            for (k, w) in &globals {
+                if let Some(v) = decode(w) {
+                    a.global_context().insert_value(k.clone(), v.clone());
+                    b.global_context().insert_value(k.clone(), v);
+                }
+            }
+            (a, b)
+        }
         (a, b) => {
             report.violation(
                 "model-mismatch",
@@ -725,6 +756,21 @@ fn directed_stage(report: &mut Report) {
         cases.push((format!("{n}.html"), rebind_ctx.clone()));
         cases.push((n.to_string(), vec![]));
     }
+    for (n, _) in global_bodies.iter() {
+        if *n == "gl_inc_inner" {
+            continue;
+        }
+        for ctx in [
+            vec![],
+            vec![("other".to_string(), "i64:1".to_string())],
+            // the render context shadows the global (wholly, and with a poorer map)
+            vec![("site".to_string(), "M2 s:6c616e67 s:6672 s:7469746c65 s:43".to_string()), ("gonly".to_string(), "s:63".to_string())],
+            vec![("gm".to_string(), "M1 s:66 M1 s:67 i64:0".to_string())],
+        ] {
+            cases.push((n.to_string(), ctx.clone()));
+            cases.push((format!("{n}.html"), ctx));
+        }
+    }
     let mut reported: HashSet<String> = HashSet::new();
     for (name, ctxw) in &cases {
         let mut ctx = Context::new();
@@ -745,17 +791,24 @@ fn directed_stage(report: &mut Report) {
                 if reported.len() < 4 && reported.insert(key) {
                     let src = templates.iter().find(|(n, _)| n == name).map(|t| t.1.clone()).unwrap_or_default();
                     // only the bindings the template mentions
-                    let used: Vec<&(String, String)> = ctxw.iter().filter(|(k, _)| src.contains(&format!("{k}")) ).collect();
+                    let mut used: Vec<&(String, String)> = ctxw.iter().filter(|(k, _)| src.contains(&format!("{k}")) ).collect();
+                    // (bindings of the instance's global context the template mentions, marked by position: after the render context)
+                    let gl_used: Vec<&(String, String)> = globals.iter().filter(|(k, _)| src.contains(k.as_str()) && !ctxw.iter().any(|(c, _)| c == k)).collect();
+                    let n_ctx_used = used.len();
+                    used.extend(gl_used);
                     report.violation(
                         "property",
                         format!(
-                            "optimisation pass changes the result (directed case, through {which}): `{src}` ({}) under {:?} gives `{}` with the pass and `{}` without",
+                            "optimisation pass changes the result (directed case, through {which}): `{src}` ({}) under render context {:?} + global_context() {:?} gives `{}` with the pass and `{}` without",
                             if name.ends_with(".html") { "autoescaped" } else { "not autoescaped" },
-                            used,
+                            &used[..n_ctx_used],
+                            &used[n_ctx_used..],
                             x.chars().take(160).collect::<String>(),
                             y.chars().take(160).collect::<String>()
                         ),
-                        serde_json::json!({"directed": {"template": [name, src], "context": ctxw, "through": which},
+                        serde_json::json!({"directed": {"template": [name, src], "context": ctxw, "through": which,
+                                "global_context": if src.contains("site") || src.contains("gonly") || src.contains("gm.") || src.contains("gl_inc_inner") { serde_json::json!(globals) } else { serde_json::json!([]) },
+                                "also": templates.iter().filter(|(n, _)| src.contains(&format!("\"{n}\""))).collect::<Vec<_>>()},
                             "pass_on": x.chars().take(600).collect::<String>(), "pass_off": y.chars().take(600).collect::<String>(),
                             "rerun": "harness/target/release/c09 --replay <this file>"}),
                     );
@@ -770,8 +823,23 @@ fn directed_stage(report: &mut Report) {
 fn replay_directed(d: &serde_json::Value) {
     let name = d["template"][0].as_str().unwrap_or("t").to_string();
     let src = d["template"][1].as_str().unwrap_or("").to_string();
-    let templates = vec![(name.clone(), src.clone())];
+    let mut templates = vec![(name.clone(), src.clone())];
+    for p in d["also"].as_array().cloned().unwrap_or_default() {
+        if let (Some(n), Some(s)) = (p[0].as_str(), p[1].as_str()) {
+            templates.push((n.to_string(), s.to_string()));
+        }
+    }
     println!("template {name}: {src}");
+    let globals: Vec<(String, String)> = d["global_context"]
+        .as_array()
+        .cloned()
+        .unwrap_or_default()
+        .iter()
+        .filter_map(|p| Some((p[0].as_str()?.to_string(), p[1].as_str()?.to_string())))
+        .collect();
+    for (k, w) in &globals {
+        println!("  global context: {k} = {w}");
+    }
     let mut ctx = Context::new();
     for p in d["context"].as_array().cloned().unwrap_or_default() {
         if let (Some(k), Some(w)) = (p[0].as_str(), p[1].as_str()) {
@@ -783,7 +851,12 @@ fn replay_directed(d: &serde_json::Value) {
     }
     for (label, skip) in [("pass on ", false), ("pass off", true)] {
         match build(&templates, skip) {
-            Ok(t) => {
+            Ok(mut t) => {
+                for (k, w) in &globals {
+                    if let Some(v) = decode(w) {
+                        t.global_context().insert_value(k.clone(), v);
+                    }
+                }
                 for (cn, l) in hooks::stored_chunks_wire(&t, &name).unwrap_or_default() {
                     println!("  {label} {cn}: {}", l.join(" "));
                 }
